@@ -75,7 +75,7 @@ RefreshAccOnly == [generate_response_spectrum |-> "rs", gen_response_spectrum |-
 Refresh == IF Kind = "AccSignal" THEN RefreshSig @@ RefreshAccOnly ELSE RefreshSig
 
 \* data mutators: every derived quantity becomes outdated; the code ends in clear_cache
-MutSig == {"add_constant_tiny", "reset_values", "reset_values_longer", "reset_values_shorter", "reset_values_list", "add_constant", "add_series", "add_signal", "butter_pass", "butter_pass_gibbs",
+MutSig == {"add_constant_tiny", "scale_slightly", "reset_values", "reset_values_longer", "reset_values_shorter", "reset_values_list", "add_constant", "add_series", "add_signal", "butter_pass", "butter_pass_gibbs",
            "remove_average", "remove_poly", "running_average"}
 MutAccOnly == {"correct_me", "remove_rolling_average_velocity", "remove_rolling_average_acc",
                "rebase_displacement", "set_zero_residual_velocity", "set_zero_residual_velocity_tz",
@@ -84,9 +84,10 @@ MutAccOnly == {"correct_me", "remove_rolling_average_velocity", "remove_rolling_
 Mutators == IF Kind = "AccSignal" THEN MutSig \cup MutAccOnly ELSE MutSig
 
 \* settings changes
+\* (the *_inplace forms edit the array the getter hands out and assign it back:  o.smooth_fa_freqs *= 1.5)
 SmoothSetters == {"set_smooth_fa_freqs", "set_smooth_fa_frequencies", "set_smooth_fa_frequecies_by_range",
-                  "set_smooth_freq_range", "set_smooth_freq_points"}
-RespSetters == IF Kind = "AccSignal" THEN {"set_response_times", "response_series_rt"} ELSE {}
+                  "set_smooth_freq_range", "set_smooth_freq_points", "set_smooth_fa_freqs_inplace"}
+RespSetters == IF Kind = "AccSignal" THEN {"set_response_times", "response_series_rt", "set_response_times_inplace"} ELSE {}
 \* generator called WITH a new setting: changes the setting and recomputes
 RespGenSetters == IF Kind = "AccSignal" THEN {"gen_response_spectrum_rt"} ELSE {}
 SmoothGenSetters == {"gen_smooth_fa_spectrum_freqs"}
